@@ -212,8 +212,14 @@ def run_z3(ob, timeout_ms=None):
         return 'failed', dt, m, None
     return 'unknown', dt, None, s.reason_unknown()
 
+_FP = re.compile(r'(?<![\w!.?|@$%^&*+=<>~/-])fp(?![\w!.?|@$%^&*+=<>~/-])')
+def _portable(txt):
+    """SMT-LIB text both solvers read: z3's two nth variants are the standard nth; a constant called `fp` (a parameter name of the repository)
+    clashes with the floating-point constructor in cvc5's ALL logic"""
+    return _FP.sub('fp_arg', txt.replace('seq.nth_u', 'seq.nth').replace('seq.nth_i', 'seq.nth'))
+
 def run_cvc5(ob, timeout_ms=None):
-    txt = ob.to_smt2().replace('seq.nth_u', 'seq.nth').replace('seq.nth_i', 'seq.nth')
+    txt = _portable(ob.to_smt2())
     # z3 prints (declare-fun f () T) and seq.empty with `as`; cvc5 1.0 accepts these. Strings need --strings-exp.
     fd, path = tempfile.mkstemp(suffix='.smt2', prefix='pyvc_')
     os.write(fd, txt.encode()); os.close(fd)
@@ -236,7 +242,7 @@ QUICK_MS = int(os.environ.get('PYVC_QUICK_MS', '1500'))
 
 def _race(ob, z3_ms, cvc5_ms):
     """z3 (CLI) and cvc5 (CLI) on the same SMT-LIB text, concurrently; first definite answer wins"""
-    txt = ob.to_smt2().replace('seq.nth_u', 'seq.nth').replace('seq.nth_i', 'seq.nth')
+    txt = _portable(ob.to_smt2())
     fd, path = tempfile.mkstemp(suffix='.smt2', prefix='pyvc_'); os.write(fd, txt.encode()); os.close(fd)
     procs = {
         'z3': subprocess.Popen(['z3-new', '-T:%d' % max(1, z3_ms // 1000), path], stdout=subprocess.PIPE, stderr=subprocess.STDOUT, text=True),
